@@ -27,12 +27,13 @@ type Scenario struct {
 	PutErrAt      int    `json:"puterrat"`
 	PutPanicAt    int    `json:"putpanicat"`
 	ReplayPanicAt int    `json:"replaypanicat"`
-	PanicKind     string `json:"panickind,omitempty"` // what the replayer panics with: "" a string | error | runtime (a real runtime error)
-	Prefill       int    `json:"prefill,omitempty"`   // publishes made sequentially before anything else starts
-	TTLms         int    `json:"ttlms,omitempty"`     // valid replayer: time-to-live in (virtual) ms; 0 = practically infinite
-	Sleeps        []int  `json:"sleeps,omitempty"`    // sleep actions (virtual ms) the scheduler may take, so that buffered events expire
-	EmptyIDAt     int    `json:"emptyidat,omitempty"` // manual IDs: the message with this creation index carries the (valid) empty ID; 0 = none, else index+1
-	WarmSubs      int    `json:"warmsubs,omitempty"`  // the first WarmSubs subscribers are started and run to quiescence (registered) before the schedule begins
+	PanicKind     string `json:"panickind,omitempty"`  // what the replayer panics with: "" a string | error | runtime (a real runtime error)
+	Prefill       int    `json:"prefill,omitempty"`    // publishes made sequentially before anything else starts
+	PrefillBad    int    `json:"prefillbad,omitempty"` // index+1 of the prefill publish that violates the replayer's ID mode (rejected by Put, still delivered live); 0 = none
+	TTLms         int    `json:"ttlms,omitempty"`      // valid replayer: time-to-live in (virtual) ms; 0 = practically infinite
+	Sleeps        []int  `json:"sleeps,omitempty"`     // sleep actions (virtual ms) the scheduler may take, so that buffered events expire
+	EmptyIDAt     int    `json:"emptyidat,omitempty"`  // manual IDs: the message with this creation index carries the (valid) empty ID; 0 = none, else index+1
+	WarmSubs      int    `json:"warmsubs,omitempty"`   // the first WarmSubs subscribers are started and run to quiescence (registered) before the schedule begins
 	Picks         []int  `json:"picks"`
 	// deviation mode (bounded enumeration): the scheduler takes option 0 at every step except
 	// at the listed steps
@@ -194,6 +195,9 @@ func genScenario(p profile) func(*rapid.T) Scenario {
 			sc.Prefill = stats.Pick(t, 3*sc.Cap+1, "prefill")
 		} else if stats.Pct(t, "hasprefill") < 25 {
 			sc.Prefill = stats.Pick(t, 8, "prefill")
+		}
+		if sc.Prefill > 0 && (sc.Replayer == "finite" || sc.Replayer == "valid") && stats.Pct(t, "prefillbad") < 25 {
+			sc.PrefillBad = 1 + stats.Pick(t, sc.Prefill, "prefillbadat")
 		}
 		// The schedule: uniform picks (rapid's own integer/slice generators are biased towards
 		// small values and short slices, which would make almost every run sequential).
